@@ -359,7 +359,7 @@ func RunIn(sched []InStep, o InOpts) *InResult {
 				continue
 			}
 			if cur != nil && !isReleased() && cur.WKind != "plain" {
-				ok := st.D || cur.WKind != "flusherr"
+				ok := st.D || (cur.WKind != "flusherr" && cur.WKind != "both")
 				if !ok {
 					clean = false
 				}
